@@ -194,12 +194,92 @@ def check(case):
     return out
 
 
+# ------------------------------------------------------------------ directed graphs (the class documents that digraphs are preserved)
+def gen_digraphs(tier, seed):
+    for n in (2, 3):
+        for labs in itertools.combinations_with_replacement((0, 1), n):
+            yield {"n": n, "labels": list(labs)}
+
+
+def di_code(labels, arcs, perm):
+    """labels and arc matrix of the digraph renumbered by perm, as a comparable tuple"""
+    n = len(labels)
+    inv = [0] * n
+    for i, p in enumerate(perm):
+        inv[p] = i
+    return (tuple(labels[inv[i]] for i in range(n)), tuple(arcs.get((inv[i], inv[j]), 0) for i in range(n) for j in range(n) if i != j))
+
+
+def check_digraphs(case):
+    """every digraph on n nodes with the given label multiset (arcs absent / order 1 / order 2 per ordered pair), every node numbering"""
+    import networkx as nx
+    from synkit.Graph.Canon.canon_graph import GraphCanonicaliser
+
+    n = case["n"]
+    fails = []
+    ncalls = 0
+    canons = {b: GraphCanonicaliser(backend=b) for b in BACKENDS}
+    pairs = [(i, j) for i in range(n) for j in range(n) if i != j]
+    perms = list(itertools.permutations(range(n)))
+    sig_to_class = {b: {} for b in BACKENDS}
+    dead = set()
+    arrangements = sorted(set(itertools.permutations(case["labels"])))
+    opts = (0, 1, 2) if (n == 2 or TIER_T[0] != "quick") else (0, 1)
+    for labels in arrangements:
+        for choice in itertools.product(opts, repeat=len(pairs)):
+            arcs = {p: c for p, c in zip(pairs, choice) if c}
+            cls = min(di_code(labels, arcs, p) for p in perms)
+            if di_code(labels, arcs, tuple(range(n))) != cls and TIER_T[0] == "quick" and n == 3:
+                continue  # quick: one member per isomorphism class (every numbering of it is still presented below)
+            first = {}
+            for perm in perms:
+                g = nx.DiGraph()
+                for i in sorted(range(n), key=lambda i: perm[i]):
+                    g.add_node(perm[i] + 1, **dict(DI_VATTR[labels[i]]))
+                for (i, j), c in arcs.items():
+                    g.add_edge(perm[i] + 1, perm[j] + 1, order=float(c))
+                for b in BACKENDS:
+                    if b in dead:
+                        continue
+                    can = canons[b]
+                    try:
+                        cg = can.make_canonical_graph(g)
+                        sig = can.canonical_signature(g)
+                    except Exception as e:
+                        fails.append(Fail("digraph_exception", f"{b}: {type(e).__name__}: {e}", "a canonical digraph", key_extra=b))
+                        dead.add(b)
+                        continue
+                    ncalls += 2
+                    ok = isinstance(cg, nx.DiGraph) and sorted(cg.nodes) == list(range(1, n + 1)) and cg.number_of_edges() == len(arcs)
+                    if ok:
+                        # some bijection input -> canonical preserves labels and arcs with their attributes
+                        ok = any(all(dict(g.nodes[u + 1]) == dict(cg.nodes[q[u] + 1]) for u in range(n)) and all(cg.has_edge(q[u - 1] + 1, q[v - 1] + 1) and dict(cg[q[u - 1] + 1][q[v - 1] + 1]) == dict(d) for u, v, d in g.edges(data=True)) for q in perms)
+                    if not ok:
+                        fails.append(Fail("digraph_not_faithful", f"{b}: arcs {sorted(g.edges(data='order'))} labels {dict(g.nodes(data='element'))} -> {sorted(cg.edges(data='order'))} {type(cg).__name__}", "the input digraph relabelled onto 1..N", key_extra=b))
+                        dead.add(b)
+                        continue
+                    prev = sig_to_class[b].setdefault(sig, cls)
+                    if prev != cls:
+                        fails.append(Fail("digraph_signature_collision", f"{b}: one signature for the non-isomorphic digraphs {prev} and {cls}", "different signatures", key_extra=b))
+                        dead.add(b)
+                        continue
+                    if b == "nauty":
+                        snap = (sig, tuple(sorted((v, tuple(sorted(d.items()))) for v, d in cg.nodes(data=True))), tuple(sorted((u, v, tuple(sorted(d.items()))) for u, v, d in cg.edges(data=True))))
+                        if first.setdefault(b, snap) != snap:
+                            fails.append(Fail("digraph_nauty_varies", f"arcs {sorted(g.edges(data='order'))}: another numbering gave {first[b][2]}, this one {snap[2]}", "one canonical digraph and signature for every numbering", key_extra=b))
+                            dead.add(b)
+    return Outcome(nontrivial=True, outcome=f"di{n}", fails=fails, transitions=ncalls)
+
+
+TIER_T = ["quick"]
+DI_VATTR = [{"element": "C", "charge": 0, "aromatic": False, "hcount": 0}, {"element": "O", "charge": 0, "aromatic": False, "hcount": 0}]
 FULLFULL = False
 
 
 def _setup_t():
     global FULLFULL
     FULLFULL = True
+    TIER_T[0] = "thorough"
 
 
 # soundness: signatures of different (pairwise non-isomorphic) representatives must differ
@@ -265,7 +345,12 @@ def soundness(tier):
 
 
 def subchecks(tier, seed):
-    return [Sub("presentations", gen, check, key=lambda c: c[0], rule=RULE[tier], setup=None if tier == "quick" else _setup_t)]
+    return [
+        Sub("presentations", gen, check, key=lambda c: c[0], rule=RULE[tier], setup=None if tier == "quick" else _setup_t),
+        Sub("digraphs", gen_digraphs, check_digraphs, key=lambda c: f"n{c['n']}:{c['labels']}", setup=None if tier == "quick" else _setup_t,
+            rule="every digraph on 2 and 3 nodes over 2 elements (per ordered pair: no arc / order 1 / order 2; quick n=3: no arc / order 1, one member per class) under every node numbering x 4 back-ends: "
+            "canonical graph is the input digraph relabelled onto 1..N, signatures of non-isomorphic digraphs differ, the exact back-end gives one result for every numbering"),
+    ]
 
 
 def run(tier, seed):
